@@ -7,7 +7,7 @@ import ast
 from mpsa.cfg import CFG, Node, calls_in, header_expr, walk_shallow
 from mpsa.flow import count_minmax, dominators, fmt_path, path_avoiding, reachable, reaching_defs
 from mpsa.loader import AnchorError, FuncInfo, dotted, norm_text
-from mpsa.match import Scope, is_name, is_none, method_of, unwrap_await, walk_shallow_func
+from mpsa.match import Scope, is_name, is_none, method_of, unwrap_await, walk_deep_func, walk_shallow_func
 from mpsa.report import Checker
 
 from .common import CONTEXT, MPINIT, THREADING, build_cfg, make_fallible
@@ -33,6 +33,8 @@ def run(ck: Checker):
     check_thread_traceback(ck, 'C12-6')
     ck.rule('C12-7', 'pipe ownership: the write end of the result pipe lives only in a mapping created by SpawnProcess.__init__ (never in the caller\'s kwargs dict), so that a killed child is seen as EOF (ORIGIN)')
     check_pipe_ownership(ck, 'C12-7')
+    ck.rule('C12-10', 'two reapers: if a helper thread of the process object reads the exit status (waitpid), the decision "the process has ended" of join/result/exception also consults the sentinel (WHO+AGREE)')
+    check_reap_race(ck, 'C12-10')
     ck.rule('C12-8', 'timeouts of join / result / exception / wait / as_completed reach the standard-library call as given (0 = poll is legal): re-bound only under `is None`, never replaced through truthiness (GUARD)', minimum=6)
     from .common import MPINIT, check_timeout_passthrough
 
@@ -41,6 +43,12 @@ def run(ck: Checker):
     fs += [f for f in ck.repo.module(THREADING).functions.values() if f.parent is None and f.name in ('wait', 'as_completed')]
     fs += [f for f in ck.repo.module(MPINIT).functions.values() if f.parent is None and f.name in ('wait', 'as_completed')]
     check_timeout_passthrough(ck, 'C12-8', fs)
+    # "a raised exception is re-raised in the parent with its type, arguments and the child's traceback text": the transport
+    # of that text is RemoteException; its obligations (C15) are decided here as well
+    from . import c15
+
+    with ck.as_rule('C12-9', 'exception transport: the RemoteException obligations C15-1..5 (rebuild attaches the traceback on every path, text always present and formatted with the chain, forwarded text reused, storage agreement, EnsembleError members re-wrapped)', minimum=5):
+        c15.run(ck)
     check_process_run(ck, 'C12-2')
     check_collector(ck, 'C12-3')
     check_accessors(ck, 'C12-4')
@@ -136,6 +144,42 @@ def check_pipe_ownership(ck: Checker, rid: str):
         if dn.kind == 'stmt' and isinstance(dn.ast, ast.Assign) and not fresh(v):
             probs.append(f'L{dn.lineno}: `{norm_text(dn.ast)[:50]}` can leave `{m}` bound to the caller\'s own dict; the write end of the result pipe is then stored in it and stays open in the parent (a killed child never produces EOF)')
     ck.ob(rid, f, st.ast, not probs, '; '.join(sorted(set(probs))) if probs else f'the write end is stored in a mapping created by __init__ itself; the caller keeps no reference to it')
+
+
+def check_reap_race(ck: Checker, rid: str):
+    """`exitcode`, `is_alive()` and `join()` of a Process call waitpid.  When a helper thread of the process object uses one
+    of them (the result collector polls `exitcode` after EOF), that thread can reap the child under a `join()` blocked in
+    another thread, which then returns with neither the child nor -- for a moment -- its exit code.  The decision "has
+    the process ended" taken by join/result/exception (`done()`) must then not rest on `exitcode` alone: the sentinel
+    does not lag behind the reap."""
+    from mpsa.match import spawn_sites
+
+    cls = ck.repo.cls(CONTEXT, 'SpawnProcess')
+    helpers = []
+    for m in cls.methods():
+        for sp in spawn_sites(m):
+            if sp.kind == 'thread' and sp.target is not None and sp.target not in helpers:
+                helpers.append(sp.target)
+    ck.need(helpers, f'{cls.qualname}: no helper thread found')
+    reads = []
+    for h in helpers:
+        for n in walk_deep_func(h.node):
+            if isinstance(n, ast.Attribute) and is_name(n.value, 'self') and n.attr == 'exitcode':
+                reads.append((h, n, 'self.exitcode'))
+            if isinstance(n, ast.Call) and method_of(n)[1] in ('is_alive', 'join') and is_name(method_of(n)[0], 'self'):
+                reads.append((h, n, f'self.{method_of(n)[1]}()'))
+            if isinstance(n, ast.Call) and method_of(n)[1] in ('poll', 'wait') and dotted(method_of(n)[0]) == 'self._popen':
+                reads.append((h, n, norm_text(n)))
+    done = cls.method('done')
+    robust = any(isinstance(n, ast.Attribute) and n.attr in ('sentinel', '_sentinel') for n in walk_shallow_func(done.node))
+    via_done = []
+    for name in ('join', 'result', 'exception'):
+        g = cls.method(name)
+        if not any(isinstance(n, ast.Call) and dotted(n.func) in ('self.done', 'self.join') for n in walk_shallow_func(g.node)):
+            via_done.append(name)
+    ok = (not reads) or (robust and not via_done)
+    where = f'{reads[0][0].qualname} L{reads[0][1].lineno} `{reads[0][2]}`' if reads else ''
+    ck.ob(rid, done, (done.node.lineno, 'done()'), ok, ('no helper thread of the process object calls waitpid' if not reads else f'helper thread reads the exit status ({where}), and done() also consults the sentinel: a reap by that thread cannot make join()/result()/exception() take a dead process for a running one') if ok else (f'the helper thread reaps the child ({where}) and done() rests on `exitcode` alone: when the child is killed while join() is blocked in another thread, the collector\'s waitpid can win, join() then returns silently with exitcode None (done() False), and result()/exception() raise a spurious TimeoutError' + (f'; {via_done} do not decide through done()' if via_done else '')))
 
 
 def check_process_run(ck: Checker, rid: str):
